@@ -632,18 +632,24 @@ class Engine:
             self.perform(self.choose(opts))
 
     # ------------------------------------------------------------ scheduler life
-    def start_scheduler(self):
+    def start_scheduler(self, same_process=False):
         self.inc += 1
         self.dead = False
         self.phase = "run"
-        self.outjob = {}
+        if same_process:
+            self.frozen_pc.update({k: self.inst_pc(k, j) for k, j in self.jobs.items() if k not in self.frozen_pc})
+        else:
+            self.frozen_pc = {}
         self.loop = DetLoop()
         self.threads = []
-        self.insts = {}
-        self.counts = {}
-        self.jobs = {}
-        self.held = {}
-        self.outputs = {}
+        if not same_process:
+            # (a second experiment of the same program still holds the objects of the first one)
+            self.outjob = {}
+            self.insts = {}
+            self.counts = {}
+            self.jobs = {}
+            self.held = {}
+            self.outputs = {}
         self.waiter = "none"
         self.waiter_task = None
         self.stopreq = False
@@ -652,7 +658,7 @@ class Engine:
         launcher = DirectLauncher(VConnector(self, self.workdir / "local"))
         self.xp = experiment(self.workdir, "xv", launcher=launcher)
         self.xp.__enter__()
-        self.record("Start", {})
+        self.record("StartSame" if same_process else "Start", {})
 
     def kill_scheduler(self):
         """SIGKILL of the scheduler process: nothing unwinds, the OS drops its locks"""
@@ -782,7 +788,7 @@ class Engine:
         try:
             self.start_scheduler()
             for self.mainpos, op in enumerate(self.plan["program"]):
-                if self.phase != "run" and op[0] not in ("restart", "rmdone"):
+                if self.phase != "run" and op[0] not in ("restart", "rmdone", "newxp"):
                     continue
                 try:
                     self.opdone = False
@@ -806,6 +812,10 @@ class Engine:
                         if self.phase == "run":
                             raise MachineryError("restart of a live scheduler")
                         self.start_scheduler()
+                    elif op[0] == "newxp":
+                        if self.phase != "closed":
+                            raise MachineryError("a second experiment of the same program starts after the first one was left")
+                        self.start_scheduler(same_process=True)
                     else:
                         raise MachineryError(f"unknown op {op}")
                     self.opdone = True
@@ -841,6 +851,8 @@ class Engine:
         self.trace.append({"a": action, "args": args, "st": self.snapshot()})
 
     def inst_pc(self, key, job):
+        if key in getattr(self, "frozen_pc", {}):
+            return self.frozen_pc[key]       # (an instance of an earlier experiment of the same program)
         reg = sub = None
         for t in self.loop.tasks:
             if getattr(t, "xv_job", None) is job:
